@@ -19,6 +19,7 @@ EXPLANATION = (
     "no lossy numeric operation to the value; list/set parsers reject empty input, the array-length format is "
     "pre-checked, unknown keys exit with an error, and parse_time's suffix chain has no shadowed suffix and "
     "the right multipliers. Values of generated option grammars are not enumerated."
+    ' Also decided: every with_overrides(**...) call site forwards the parsed options unfiltered or filtered by `is not None` only (an explicit falsy value must win).'
 )
 ASSUMPTIONS = ["argparse stores parsed values under the dataclass field names", "toml.loads is faithful"]
 
